@@ -21,6 +21,8 @@ NAME_POOL = [
     "and", "or", "not", "at", "start", "end", "object", "define", "forall", "exists", "when", "either", "number",
     "increase", "total-cost", "all", "over", "action", "fluent", "type", "instance", "duration", "goal", "init",
     "constant", "boolean", "integer", "float", "true", "false", "imply", "assign", "minimize", "problem", "domain",
+    "always", "sometime", "at-most-once", "within", "oneof", "unknown", "observe", "process", "event", "decrease",
+    "preference", "scale-up", "total-time", "condition", "constraints", "functions", "derived", "undefined",
     # upper case and collisions after lower-casing
     "A", "a", "Obj1", "obj1", "MOVE", "Move", "X", "x",
     # leading digits and symbols
@@ -81,7 +83,12 @@ class IoGenProblem(GenProblem):
         self.fluents = []
         cands = [(B, []), (B, [self.T0]), (B, [self.T1]), (B, [self.T0, self.T1])]
         if not k["bool_only"]:
-            cands += [(tm.IntType(), []), (tm.IntType(), [self.T0]), (tm.RealType(), []), (tm.RealType(), [self.T1])]
+            def it():
+                return tm.IntType(0, 3) if (k["bounded"] and rng.random() < 0.5) else tm.IntType()
+
+            def rt():
+                return tm.RealType(Fraction(-1, 2), 3) if (k["bounded"] and rng.random() < 0.5) else tm.RealType()
+            cands += [(it(), []), (it(), [self.T0]), (rt(), []), (rt(), [self.T1])]
             if k["obj_fluents"]:
                 cands += [(self.T0, []), (self.T1, [self.T0])]
         nfl = rng.randint(2, 5)
@@ -120,7 +127,14 @@ class IoGenProblem(GenProblem):
             p.add_action(a)
             self.actions.append(a)
         for _ in range(rng.randint(1, 2)):
-            p.add_goal(self.gen_bool(2, [], ()))
+            for _try in range(6):
+                goal = self.gen_bool(2, [], ())
+                try:
+                    if not goal.simplify().is_constant():
+                        break
+                except (ZeroDivisionError, AssertionError):
+                    pass
+            p.add_goal(goal)
         self.metric = None
         if k["metrics"] and rng.random() < 0.6:
             self.add_io_metric()
@@ -144,6 +158,8 @@ class IoGenProblem(GenProblem):
             return rng.random() < 0.5
         if ty.is_user_type():
             return rng.choice(self.objects_of(ty))
+        if (ty.is_int_type() or ty.is_real_type()) and (ty.lower_bound is not None or ty.upper_bound is not None):
+            return GenProblem.rand_const(self, ty)
         if self.k["ai_friendly"]:      # the third-party parser has no negative literals
             if ty.is_int_type():
                 return rng.randint(0, 3)
@@ -466,3 +482,108 @@ def forward_plans(problem, rng, max_depth=4, max_plans=3, max_nodes=400):
                     nxt.append((n2, path + [(a, args)]))
         frontier = nxt[:40]
     return plans
+
+
+# ---------------------------------------------------------------------- temporal constructs
+def add_temporal(g, rng, target="anml"):
+    """adds 1-2 durative actions, timed initial effects and (ANML only) timed goals to a generated problem.
+    PDDL: conditions/effects only at start / at end / over all, no timed goals (the writer rejects the rest as ICE)."""
+    from unified_planning.model import DurativeAction
+    from unified_planning.model.timing import (StartTiming, EndTiming, GlobalStartTiming, ClosedTimeInterval,
+                                               OpenTimeInterval, LeftOpenTimeInterval, RightOpenTimeInterval,
+                                               TimePointInterval)
+    em, p, env = g.em, g.problem, g.env
+    anml = target == "anml"
+    bools = [f for f in g.fluents if f.type.is_bool_type()]
+    nums = g.num_fluents()
+
+    def delay():
+        return rng.choice([0, 0, 1, 2, Fraction(1, 2)]) if anml else 0
+
+    def timing():
+        return StartTiming(delay()) if rng.random() < 0.5 else EndTiming(-delay() if rng.random() < 0.5 else 0)
+
+    for _ in range(rng.randint(1, 2)):
+        ptypes = [g.T0 if rng.random() < 0.55 else g.T1 for _ in range(rng.randint(0, 2))]
+        a = DurativeAction(g.fresh_name(), OrderedDict((g.fresh_name(), t) for t in ptypes), env)
+        params = list(a.parameters)
+        r = rng.random()
+        lo = rng.choice([1, 2, Fraction(3, 2), 3])
+        hi = lo + rng.choice([1, 2, Fraction(1, 2)])
+        dfl = [f for f in nums if f.arity == 0]
+        if r < 0.35:
+            a.set_fixed_duration(lo)
+        elif r < 0.5 and dfl:
+            a.set_fixed_duration(em.Plus(em.FluentExp(dfl[0]), lo) if rng.random() < 0.5 else em.FluentExp(dfl[0]))
+        elif r < 0.7:
+            a.set_closed_duration_interval(lo, hi)
+        elif r < 0.8:
+            a.set_open_duration_interval(lo, hi)
+        elif r < 0.9:
+            a.set_left_open_duration_interval(lo, hi)
+        else:
+            a.set_right_open_duration_interval(lo, hi)
+        for _c in range(rng.randint(1, 3)):
+            c = g.gen_bool(1, params, ())
+            try:
+                if c.simplify().is_constant():
+                    continue
+            except (ZeroDivisionError, AssertionError):
+                continue
+            q = rng.random()
+            if q < 0.3:
+                a.add_condition(StartTiming(delay()), c)
+            elif q < 0.5:
+                a.add_condition(EndTiming(), c)
+            elif q < 0.75:
+                a.add_condition(ClosedTimeInterval(StartTiming(), EndTiming()), c)
+            elif q < 0.85:
+                a.add_condition(OpenTimeInterval(StartTiming(), EndTiming()), c)
+            elif anml:
+                a.add_condition(rng.choice([LeftOpenTimeInterval, RightOpenTimeInterval, ClosedTimeInterval])(
+                    StartTiming(delay()), EndTiming()), c)
+            else:
+                a.add_condition(rng.choice([LeftOpenTimeInterval, RightOpenTimeInterval])(StartTiming(), EndTiming()), c)
+        for _e in range(rng.randint(1, 3)):
+            t = timing()
+            f = rng.choice(g.fluents)
+            if f.type.is_user_type():
+                continue
+            target_exp = g.gen_fluent(f, 0, params, ())
+            cond = g.gen_bool(1, params, ()) if rng.random() < 0.3 else True
+            try:
+                if f.type.is_bool_type():
+                    a.add_effect(t, target_exp, rng.random() < 0.5, cond)
+                else:
+                    v = g.gen_num(1, params, (), ints_only=f.type.is_int_type())
+                    q = rng.random()
+                    if q < 0.35:
+                        a.add_increase_effect(t, target_exp, v, cond)
+                    elif q < 0.5:
+                        a.add_decrease_effect(t, target_exp, v, cond)
+                    else:
+                        a.add_effect(t, target_exp, v, cond)
+            except Exception:  # noqa  (conflicting effects etc.)
+                pass
+        if not a.effects:
+            a.add_effect(EndTiming(), em.FluentExp(bools[0]) if bools[0].arity == 0 else g.gen_fluent(bools[0], 0, params, ()), True)
+        p.add_action(a)
+    # timed initial literals / effects
+    for _ in range(rng.randint(0, 2)):
+        f = rng.choice(bools if (rng.random() < 0.7 or not nums) else nums)
+        fe = g.gen_fluent(f, 0, [], ())
+        t = GlobalStartTiming(rng.choice([1, 2, Fraction(5, 2), 10, Fraction(1, 4)]))
+        try:
+            if f.type.is_bool_type():
+                p.add_timed_effect(t, fe, rng.random() < 0.5)
+            else:
+                p.add_timed_effect(t, fe, g.rand_const(f.type))
+        except Exception:  # noqa
+            pass
+    if anml and rng.random() < 0.5:
+        c = g.gen_bool(1, [], ())
+        try:
+            if not c.simplify().is_constant():
+                p.add_timed_goal(ClosedTimeInterval(GlobalStartTiming(rng.choice([1, 3])), GlobalStartTiming(rng.choice([4, 6]))), c)
+        except Exception:  # noqa
+            pass
